@@ -155,7 +155,7 @@ PROPS['C08'] = dict(
            ('decode_props', 2000, 30000), ('reader', 2000, 30000)],
     sess=[('sess_c08', 300, 4000)],
     events='wrf', state=['ret', 'rel', 'ctl', 'srv', 'live', 'conn', 'rb', 'pl', 'quota'],
-    monitors=[M.mon_panic, M.mon_c08, M.mon_c11],
+    monitors=[M.mon_panic, M.mon_c08, M.mon_c11], codec_monitors=[M.mon_decode],
     title='any inbound bytes: valid packets accepted verbatim, malformed rejected, no panic',
     claim='Proved in Coq: variable byte integers round-trip and the reader accepts exactly the canonical encodings (<= 4 bytes, '
           '<= 268435455); the packet reader\'s lax length probe agrees with the canonical reader; the first byte is accepted '
@@ -188,6 +188,19 @@ PROPS['C09'] = dict(
          'theorem is proved for PUBLISH; CONNECT/SUBSCRIBE/UNSUBSCRIBE/DISCONNECT are covered by the size/content lemmas and '
          'the differential check against the independent parser (partial in that respect). The keep-alive clause was false on '
          'the unchanged tree; repaired by fix 2bb8a2d.')
+
+PROPS['C20'] = dict(
+    codec=[('reply', 3000, 40000)],
+    codec_monitors=[M.mon_reply],
+    title='reply helpers address exactly the requester',
+    claim='Proved in Coq for all response topics and correlation data (any bytes, any length), at any position among any other '
+          'well-formed inbound properties: the helpers see the first Response Topic and the first Correlation Data of the inbound '
+          'property list (through the lazy iterator round trip); reply() yields a publication to exactly that topic carrying exactly '
+          'that correlation data followed by the user properties (also read back from its encoding); no reply is offered without a '
+          'response topic; the owned copy equals the two values when they fit the requested capacities and is an error otherwise, '
+          'never a truncated copy. Tied to the code by differential runs through a hook that builds the InboundPublish and renders '
+          'reply()/reply_owned() for 8 capacity pairs, lengths around each capacity, and an independent Python reading of the inbound packet.',
+    note='Trusted: Coq kernel, model, extraction, harness, reply hook. No axioms.')
 
 TRUSTED_BASE = [
     'Coq 8.16.1 kernel and its bytecode VM (vm_compute); native_compute is not used',
